@@ -11,9 +11,9 @@ import (
 
 func init() {
 	register(&propDef{
-		id: "C20",
+		id:      "C20",
 		explain: "Structural necessary conditions of 'redirects never leak credentials to an untrusted host, are bounded, and rewrite the method as RFC 9110 says': in the redirect loop (the function that re-issues a request through a clientDoer in a loop) every path from one Do to the next passes the credential-strip function, the hop counter increment and the exit when it exceeds the limit; the strip function deletes at least Authorization, Cookie, Cookie2, Proxy-Authorization, Proxy-Authenticate and WWW-Authenticate under the untrusted-host test; the trust anchor handed to it is computed before the loop from the URL string the caller gave and does not derive from storage owned by the reused Request (which every hop rewrites in place); the 303 branch drops the body and its framing headers and rewrites non-GET/HEAD to GET; 301/302 on POST rewrites to GET. Not decided: the host-trust predicate over all spellings of hosts; credentials embedded in URL userinfo.",
-		run: runC20,
+		run:     runC20,
 	})
 }
 
